@@ -221,6 +221,10 @@ def drive(sc):
             tt = "".join(LETTERS[c] for c in t)
             if sc.get("bytes"):
                 ss, tt = ss.encode(), tt.encode()
+                if n % 2 == 1:
+                    # the same abstract strings over an alphabet with bytes >= 0x80 (signed/unsigned char, UTF-8 input)
+                    hi = bytes([65, 0xE9, 0xF1, 0x80])
+                    ss, tt = bytes(hi[c] for c in s), bytes(hi[c] for c in t)
             order = n % 3
             kind = "bytes" if sc.get("bytes") else "str"
             if order == 0:
